@@ -344,25 +344,36 @@ pub mod vx_export {
     }
     fn c10_batch(i: usize) -> Vec<(AkdLabel, AkdValue)> {
         let kv = |k: &str, v: &str| (AkdLabel::from(k), AkdValue::from(v));
-        match i { 0 => vec![kv("a", "a1"), kv("b", "b1")], _ => vec![kv("a", "a2"), kv("c", "c1")] }
+        match i {
+            0 => vec![kv("a", "a1"), kv("b", "b1"), kv("e", "e1"), kv("f", "f1"), kv("g", "g1"), kv("h", "h1")],
+            1 => vec![kv("a", "a2"), kv("c", "c1"), kv("e", "e2"), kv("i", "i1"), kv("j", "j1")],
+            _ => vec![kv("b", "b2"), kv("d", "d1")],
+        }
     }
     /// C10 witness: publish batch 0, then publish batch 1 while the k-th database operation of that call fails (k counted from 0 over
     /// reads and writes; k beyond the number of operations = no fault), with (`cache`) or without the object cache; then observe the
     /// directory through the same instance, retry the publish and compare with a fault-free reference run.
-    pub async fn c10_fault_at<TC: Configuration>(cache: bool, k: i64) -> Result<C10Outcome, AkdError> {
+    pub async fn c10_fault_at<TC: Configuration>(cache: bool, k: i64, retry_other: bool, parallel: bool) -> Result<C10Outcome, AkdError> {
+        let par = || if parallel { AzksParallelismConfig::default() } else { AzksParallelismConfig::disabled() };
         use std::sync::atomic::AtomicI64;
         let mk = |db: FaultyDb| if cache { StorageManager::new(db, None, None, None) } else { StorageManager::new_no_cache(db) };
         let vrf = HardCodedAkdVRF {};
         // reference
         let rdb = FaultyDb { inner: AsyncInMemoryDatabase::new(), ops: Arc::new(AtomicI64::new(0)), fail_at: Arc::new(AtomicI64::new(-1)) };
-        let rdir = Directory::<TC, _, _>::new(mk(rdb), vrf.clone(), AzksParallelismConfig::disabled()).await?;
+        let rdir = Directory::<TC, _, _>::new(mk(rdb), vrf.clone(), par()).await?;
         rdir.publish(c10_batch(0)).await?;
-        rdir.publish(c10_batch(1)).await?;
+        let reference_ok = rdir.publish(c10_batch(1)).await?;
         let reference = rdir.get_epoch_hash().await?;
+        // reference for "the failed call had never been made" followed by a DIFFERENT batch
+        let odb = FaultyDb { inner: AsyncInMemoryDatabase::new(), ops: Arc::new(AtomicI64::new(0)), fail_at: Arc::new(AtomicI64::new(-1)) };
+        let odir = Directory::<TC, _, _>::new(mk(odb), vrf.clone(), par()).await?;
+        odir.publish(c10_batch(0)).await?;
+        odir.publish(c10_batch(2)).await?;
+        let reference_other = odir.get_epoch_hash().await?;
         // faulty run
         let db = FaultyDb { inner: AsyncInMemoryDatabase::new(), ops: Arc::new(AtomicI64::new(0)), fail_at: Arc::new(AtomicI64::new(-1)) };
         let storage = mk(db.clone());
-        let dir = Directory::<TC, _, _>::new(storage.clone(), vrf.clone(), AzksParallelismConfig::disabled()).await?;
+        let dir = Directory::<TC, _, _>::new(storage.clone(), vrf.clone(), par()).await?;
         dir.publish(c10_batch(0)).await?;
         let before = dir.get_epoch_hash().await?;
         db.ops.store(0, Ordering::SeqCst);
@@ -370,6 +381,7 @@ pub mod vx_export {
         let r = dir.publish(c10_batch(1)).await;
         let ops_in_publish = db.ops.load(Ordering::SeqCst);
         db.fail_at.store(-1, Ordering::SeqCst);
+        for _ in 0..64 { tokio::task::yield_now().await; }   // anything the call left running gets its chance to run
         let txn_left_open = storage.is_transaction_active();
         let after = dir.get_epoch_hash().await?;
         let pk = dir.get_public_key().await?;
@@ -380,7 +392,13 @@ pub mod vx_export {
             },
             Err(_) => false,
         };
-        let retry = dir.publish(c10_batch(1)).await;
+        // a publish that returned Ok although an operation failed must have produced exactly the fault-free state
+        if r.is_ok() && (after.epoch() != reference_ok.epoch() || after.hash() != reference_ok.hash()) {
+            return Ok(C10Outcome { ops_in_publish, publish_err: None, epoch_before: before.epoch(), epoch_after: after.epoch(), hash_unchanged: false,
+                txn_left_open, old_value_still_proved: false, retry_ok: true, final_matches_reference: false });
+        }
+        let (retry, want) = if retry_other && r.is_err() { (dir.publish(c10_batch(2)).await, reference_other) } else { (dir.publish(c10_batch(1)).await, reference) };
+        let reference = want;
         let fin = dir.get_epoch_hash().await?;
         Ok(C10Outcome {
             ops_in_publish, publish_err: r.as_ref().err().map(|e| e.to_string()), epoch_before: before.epoch(), epoch_after: after.epoch(),
@@ -454,5 +472,72 @@ pub mod vx_export {
         let _ = m.commit_transaction().await;
         let stored = matches!(db.get::<Azks>(&crate::append_only_zks::DEFAULT_AZKS_KEY).await, Ok(DbRecord::Azks(a)) if a.latest_epoch == 7);
         Ok((refused, readable, stored))
+    }
+
+    /// C16 (flush): through a cached manager only the epoch record has been touched (others = 0) or also `others` node records;
+    /// the database then moves to epoch 2 behind the manager's back (another writer), the cache is flushed, the epoch record is read.
+    /// Returns (epoch the manager's read reports, epoch the database holds): equal after a flush.
+    pub async fn c16_flush_epoch_record(others: u8) -> Result<(u64, u64), AkdError> {
+        let db = AsyncInMemoryDatabase::new();
+        let m = StorageManager::new(db.clone(), None, None, None);
+        m.set(DbRecord::Azks(Azks { latest_epoch: 1, num_nodes: 1 })).await.map_err(AkdError::Storage)?;
+        for i in 0..others {
+            let node = crate::tree_node::new_leaf_node::<crate::ExperimentalConfiguration<crate::ExampleLabel>>(lbl(i + 1), &AzksValue([i; 32]), 1);
+            node.write_to_storage(&m, true).await?;
+        }
+        let _ = m.get::<Azks>(&crate::append_only_zks::DEFAULT_AZKS_KEY).await.map_err(AkdError::Storage)?;
+        db.set(DbRecord::Azks(Azks { latest_epoch: 2, num_nodes: 1 })).await.map_err(AkdError::Storage)?;
+        m.flush_cache().await;
+        let via_manager = match m.get::<Azks>(&crate::append_only_zks::DEFAULT_AZKS_KEY).await.map_err(AkdError::Storage)? { DbRecord::Azks(a) => a.latest_epoch, _ => 0 };
+        let in_db = match db.get::<Azks>(&crate::append_only_zks::DEFAULT_AZKS_KEY).await.map_err(AkdError::Storage)? { DbRecord::Azks(a) => a.latest_epoch, _ => 0 };
+        Ok((via_manager, in_db))
+    }
+
+    /// C13 (proofs served by a reader `lag` epochs behind storage): 8 labels are published in epoch 1; `lag` further epochs each update
+    /// label "b"; the epoch record is reset to epoch 1 (a reader that still holds the old epoch record); a read-only directory then
+    /// answers lookup and key-history requests for every label. Each answer must be an error or verify against (1, root hash of epoch 1).
+    /// Returns the list of (request, what went wrong).
+    pub async fn c13_lagging_proofs<TC: Configuration>(lag: u64, cached_reader: bool) -> Result<Vec<(String, String)>, AkdError> {
+        let db = AsyncInMemoryDatabase::new();
+        let akd = Directory::<TC, _, _>::new(StorageManager::new_no_cache(db.clone()), HardCodedAkdVRF {}, AzksParallelismConfig::disabled()).await?;
+        let names = ["a", "b", "c", "d", "e", "f", "g", "h"];
+        akd.publish(names.iter().map(|n| (AkdLabel::from(*n), AkdValue::from("1"))).collect()).await?;
+        let h1 = akd.get_epoch_hash().await?;
+        let checkpoint = akd.retrieve_azks().await?;
+        // cached reader: a second instance with an object cache that has served one lookup at epoch 1 (epoch record, root and the
+        // nodes around "a" are cached) and keeps answering from that view while storage moves on
+        let reader_storage = if cached_reader { StorageManager::new(db.clone(), Some(std::time::Duration::from_secs(3600)), None, Some(std::time::Duration::from_secs(3600))) } else { StorageManager::new_no_cache(db.clone()) };
+        let warm = if cached_reader { Some(ReadOnlyDirectory::<TC, _, _>::new(reader_storage.clone(), HardCodedAkdVRF {}, AzksParallelismConfig::disabled()).await?) } else { None };
+        if let Some(w) = &warm { let _ = w.lookup(AkdLabel::from("a")).await?; }
+        for k in 0..lag {
+            akd.publish(vec![(AkdLabel::from("b"), AkdValue(format!("v{}", k + 2).into_bytes()))]).await?;
+        }
+        let ro = match warm {
+            Some(w) => w,
+            None => {
+                db.set(DbRecord::Azks(checkpoint)).await.map_err(AkdError::Storage)?;
+                ReadOnlyDirectory::<TC, _, _>::new(reader_storage, HardCodedAkdVRF {}, AzksParallelismConfig::disabled()).await?
+            }
+        };
+        let pk = akd.get_public_key().await?;
+        let mut bad = vec![];
+        for n in names {
+            let label = AkdLabel::from(n);
+            if let Ok((proof, eh)) = ro.lookup(label.clone()).await {
+                if eh.epoch() != h1.epoch() || eh.hash() != h1.hash() {
+                    bad.push((format!("lookup({n})"), format!("answered with (epoch {}, a root hash the directory did not publish for it)", eh.epoch())));
+                } else if let Err(e) = lookup_verify::<TC>(pk.as_bytes(), eh.hash(), eh.epoch(), label.clone(), proof) {
+                    bad.push((format!("lookup({n})"), format!("returned Ok with the published pair of epoch 1, but the proof does not verify against it: {e}")));
+                }
+            }
+            if let Ok((proof, eh)) = ro.key_history(&label, HistoryParams::Complete).await {
+                if eh.epoch() != h1.epoch() || eh.hash() != h1.hash() {
+                    bad.push((format!("key_history({n})"), format!("answered with (epoch {}, a root hash the directory did not publish for it)", eh.epoch())));
+                } else if let Err(e) = key_history_verify::<TC>(pk.as_bytes(), eh.hash(), eh.epoch(), label.clone(), proof, HistoryVerificationParams::default()) {
+                    bad.push((format!("key_history({n})"), format!("returned Ok with the published pair of epoch 1, but the proof does not verify against it: {e}")));
+                }
+            }
+        }
+        Ok(bad)
     }
 }
